@@ -37,7 +37,7 @@ def walk(draw, g, lm=None, max_len=8, start_pool=None, revisit_bias=False, prefi
 
 
 @st.composite
-def cigar_for(draw, path_span, max_runs=6):
+def cigar_for(draw, path_span, max_runs=6, ops_alphabet="=XID"):
     """A CIGAR over = X I D (run-length normal form) consuming exactly path_span path bases.
     Returns (cigar, query_span, matches, block)."""
     ops = []
@@ -45,7 +45,7 @@ def cigar_for(draw, path_span, max_runs=6):
     last = None
     nruns = draw(st.integers(1, max_runs))
     for k in range(nruns):
-        choices = [c for c in "=XID" if c != last]
+        choices = [c for c in ops_alphabet if c != last]
         if remaining == 0:
             choices = [c for c in choices if c == "I"]
             if not choices:
@@ -65,7 +65,7 @@ def cigar_for(draw, path_span, max_runs=6):
         op = "=" if last != "=" else "X"
         ops.append((remaining, op))
     cg = "".join("%d%s" % x for x in ops)
-    qspan = sum(n for n, op in ops if op in "=XI")
+    qspan = sum(n for n, op in ops if op in "=XIM")
     matches = sum(n for n, op in ops if op == "=")
     block = sum(n for n, _ in ops)
     return cg, qspan, matches, block
@@ -122,7 +122,7 @@ def plain_tags(draw, max_tags=3):
 
 @st.composite
 def record(draw, g, lm=None, canonical=False, name=None, max_len=8, with_cigar=True, tags=True,
-           start_pool=None, steps=None, revisit_bias=False, prefix=None):
+           start_pool=None, steps=None, revisit_bias=False, prefix=None, cigar_ops="=XID"):
     """An unstable '+'-strand record over a walk. Returns a dict."""
     if steps is None:
         steps = draw(walk(g, lm, max_len=max_len, start_pool=start_pool, revisit_bias=revisit_bias, prefix=prefix))
@@ -135,7 +135,7 @@ def record(draw, g, lm=None, canonical=False, name=None, max_len=8, with_cigar=T
     else:
         ps = draw(st.integers(0, total - 1))
         pe = draw(st.integers(ps + 1, total))
-    cg, qspan, matches, block = draw(cigar_for(pe - ps))
+    cg, qspan, matches, block = draw(cigar_for(pe - ps, ops_alphabet=cigar_ops))
     qs = draw(st.integers(0, 5))
     qlen = qs + qspan + draw(st.integers(0, 5))
     if qspan == 0:
